@@ -3,7 +3,7 @@ from __future__ import annotations
 
 import ast
 
-from ..core import Ctx, assigned_names, dotted, norm, stmts_local, walk_local
+from ..core import Ctx, assigned_names, dotted, norm, presence_test, stmts_local, walk_local
 from ..effects import Effects
 from ..hashrules import citation_classes, run_hash_rules, run_resource_rules
 from ..paths import enumerate_paths
@@ -101,9 +101,26 @@ def rule_normalisation_reached(ctx: Ctx):
     mm = repo.mod("models")
     cr = repo.need_func("models.ResourceCitation.corrected_reporter")
     S = cr.args.args[0].arg
-    rets = [r for r in walk_local(cr) if isinstance(r, ast.Return)]
-    okc = len(rets) == 1 and isinstance(rets[0].value, ast.IfExp) and norm(rets[0].value.test) == f"{S}.edition_guess" \
-        and norm(rets[0].value.body) == f"{S}.edition_guess.short_name" and norm(rets[0].value.orelse) in (f"{S}.groups['reporter']",)
+    okc, n_ret = True, 0
+    for p in enumerate_paths(cr.body):
+        if p.exit != "return":
+            okc = False
+            continue
+        n_ret += 1
+        present = None
+        for ev in p.events:
+            if ev[0] == "cond":
+                pt = presence_test(ev[1], ev[2])
+                if pt and pt[0] == f"{S}.edition_guess":
+                    present = pt[1]
+        rv = norm(p.exit_node.value) if p.exit_node.value is not None else None
+        if present is True:
+            okc = okc and rv == f"{S}.edition_guess.short_name"
+        elif present is False:
+            okc = okc and rv == f"{S}.groups['reporter']"
+        else:
+            okc = False
+    okc = okc and n_ret >= 2
     ctx.ob("R-C16-5", "models.ResourceCitation.corrected_reporter/prefers-guess", okc,
            "the normalised reporter is the guessed edition's name when there is a guess, else the reporter as written", node=cr, mod=mm)
     subs = [c for c in repo.subclasses("ResourceCitation") if c != "ResourceCitation" and any(
